@@ -1,9 +1,75 @@
-/- C04 driver: not written yet -/
+/-
+  C04 driver: the model of `searchEdge` (LibfiveModel/Marching.lean: `search`) against the real
+  SimplexMesher::searchEdge.  Input (harness/mesh.cpp):
+    search <id> t_real offset z changes f(a) f(b) len slope f(lo) f(hi)
+  where `t_real` is the parameter of the vertex the real code returned on the segment a -> b,
+  `z` the parameter of the (single) sign change of the double-precision reference field and
+  `slope` its derivative there.  The model is run on the classifier `t > z` with the constants
+  regenerated from the sources (16 samples, 4 rounds); its midpoint must equal `t_real`.
+  Cases where float noise can legitimately move the classifier across a sample are skipped
+  (result differs between z - δ and z + δ, grazing crossings, several sign changes).
+-/
 import Driver.Parse
+import LibfiveModel.Marching
+open Libfive.Marching Generated.MeshTables
 
 namespace Driver.C04
 
-def run (_args : List String) (lines : Array String) : Array String :=
-  #[s!"MISMATCH driver-not-implemented {lines.size}"]
+def digitsToNat (cs : List Char) : Nat := cs.foldl (fun n c => 10 * n + (c.toNat - '0'.toNat)) 0
+
+/-- decimal / scientific notation parser sufficient for printf("%.17g") -/
+def float! (s : String) : Float :=
+  let cs := s.toList
+  let (neg, cs) := match cs with
+    | '-' :: r => (true, r)
+    | '+' :: r => (false, r)
+    | _ => (false, cs)
+  let (mant, ex) := cs.span (· != 'e')
+  let ex := ex.drop 1
+  let exn : Int := match ex with
+    | '-' :: r => - (digitsToNat r : Int)
+    | '+' :: r => (digitsToNat r : Int)
+    | r => (digitsToNat r : Int)
+  let (ip, fp) := mant.span (· != '.')
+  let fp := fp.drop 1
+  let n := digitsToNat (ip ++ fp)
+  let e10 : Int := exn - fp.length
+  let v := if e10 ≥ 0 then Float.ofScientific (n * 10 ^ e10.toNat) false 0
+           else Float.ofScientific n true e10.natAbs
+  if neg then -v else v
+
+def lerpF (n : Nat) (lo hi : Float) (j : Nat) : Float :=
+  let frac := j.toFloat / (n.toFloat - 1.0)
+  lo * (1.0 - frac) + hi * frac
+
+def modelMid (z : Float) : Float :=
+  let n := simplexPointsPerSearch
+  let q := search (lerpF n) (fun t => t > z) n simplexSearchCount (0.0, 1.0)
+  (q.1 + q.2) / 2.0
+
+def handle (line : String) : Option String :=
+  match words line with
+  | ["search", id, t, off, z, changes, _fa, _fb, len, slope, _flo, _fhi] =>
+    let t := float! t
+    let z := float! z
+    let len := float! len
+    let slope := float! slope
+    let off := float! off
+    if changes != "1" then some s!"skip search {id} sign-changes {changes}"
+    else if slope < 0.5 then some s!"skip search {id} grazing slope {slope}"
+    else
+      let δ := 2e-6
+      let m0 := modelMid z
+      let m1 := modelMid (z - δ)
+      let m2 := modelMid (z + δ)
+      if off > 1e-6 then some s!"MISMATCH search {id} vertex-off-segment {off}"
+      else if m1 != m2 then some s!"skip search {id} crossing-within-noise-of-a-sample"
+      else
+        let tol := 1e-6 / len + 1e-7
+        if (t - m0).abs ≤ tol then some s!"ok search {id} {m0}"
+        else some s!"MISMATCH search {id} model {m0} real {t} z {z} tol {tol}"
+  | _ => none
+
+def run (_args : List String) (lines : Array String) : Array String := lines.filterMap handle
 
 end Driver.C04
